@@ -2874,6 +2874,22 @@ def digest_dsl_component(
             check_environment = None
         else:
             check_environment = scope.parameters[param_name]
+    elif isinstance(check_environment, dict):
+        # VV: an environment that the template spells out may use the parameters of the component in its values,
+        # the environment is registered on its own so resolve them here (one that arrives through a parameter is
+        # resolved already)
+        try:
+            check_environment = replace_parameter_references(
+                check_environment,
+                location=scope.location + ["inner_field"],
+                all_scopes={tuple(scope.location): scope},
+                is_replica=is_replica,
+                variables=scope.template.variables,
+            )
+        except (ValueError, KeyError) as e:
+            errors.append(experiment.model.errors.DSLInvalidFieldError(
+                location=scope.dsl_location() + ["command", "environment"], underlying_error=e))
+            check_environment = None
 
     if isinstance(check_environment, dict):
         environment = check_environment
